@@ -20,7 +20,8 @@ fn main() {
     std::panic::set_hook(Box::new(|info| {
         let own = info.location().map(|l| !l.file().starts_with("/repo")).unwrap_or(true);
         let abort = info.payload().is::<sched::SimAbort>();
-        if (own && !abort) || std::env::var("VERIF_SHOW_PANICS").is_ok() {
+        let cap = info.payload().downcast_ref::<&str>().map(|s| s.contains("sim clock read cap")).unwrap_or(false);
+        if (own && !abort && !cap) || std::env::var("VERIF_SHOW_PANICS").is_ok() {
             eprintln!("panic: {info}");
         }
     }));
